@@ -180,8 +180,9 @@ static void run_reduce(Json& js, vh::Rng& rng, long budget) {
     for (long t = 0; t < budget; ++t) {
         const int n = (int)rng.range(1, 60);
         std::vector<long> x(n), y(n);
+        const int special = t < 12 ? (int)(t % 3) : -1;   // all zeros, constant, one non-zero entry
         for (int i = 0; i < n; ++i) {
-            x[i] = rng.range(-30, 30);
+            x[i] = special == 0 ? 0 : special == 1 ? 7 : special == 2 ? (i == n / 2 ? -3 : 0) : rng.range(-30, 30);
             y[i] = rng.range(-30, 30);
         }
         const arr_real a = to_arr(x), b = to_arr(y);
